@@ -560,12 +560,12 @@ def src_tuples(nmax, maxlen, kinds=(0, 1)):
 
 BOUNDS = {
     # per tier: see exhaustive_cases; recorded verbatim in the evidence
-    "quick": dict(L=4, Lpred=5, params=(-2, -1, 0, 1, 2, 3, 4, 5, 6, 7), Lcomb=4, Lcompress=3,
-                  islice_params=(None, -1, 0, 1, 2, 3), Lislice=3, Lislice_distinct=5, chain_n=2, chain_L=2,
+    "quick": dict(L=5, Lpred=5, params=(-2, -1, 0, 1, 2, 3, 4, 5, 6, 7), Lcomb=4, Lcompress=3,
+                  islice_params=(None, -2, -1, 0, 1, 2, 3, 4, 5, 6, 7), Lislice=2, Lislice_distinct=6, chain_n=2, chain_L=2,
                   zip_n=2, zip_L=2, prod_n=2, prod_L=2, prod_rep=(-1, 0, 1, 2, 3), star_n=2, star_L=2,
                   cycle_L=3, cycle_k=7, count_k=4, Lacc=4),
     "thorough": dict(L=6, Lpred=6, params=(-2, -1, 0, 1, 2, 3, 4, 5, 6, 7), Lcomb=5, Lcompress=4,
-                     islice_params=(None, -2, -1, 0, 1, 2, 3, 4, 5, 6, 7), Lislice=3, Lislice_distinct=6,
+                     islice_params=(None, -2, -1, 0, 1, 2, 3, 4, 5, 6, 7), Lislice=3, Lislice_distinct=7,
                      chain_n=3, chain_L=2, zip_n=3, zip_L=2, prod_n=2, prod_L=2, prod_rep=(-2, -1, 0, 1, 2, 3),
                      star_n=3, star_L=2, cycle_L=4, cycle_k=10, count_k=5, Lacc=6),
 }
@@ -958,12 +958,12 @@ def run_tee(tier: str, rng: random.Random):
         runs = []
         if tier == "quick":
             plan = [(m, s, n, d) for m in (0, 1, 2) for s, n, d in
-                    (((), 2, 6), ((1,), 2, 7), ((1, 2), 2, 7), ((), 3, 5), ((1,), 3, 6), ((1, 2), 3, 5))]
+                    (((), 2, 8), ((1,), 2, 9), ((1, 2), 2, 9), ((), 3, 6), ((1,), 3, 7), ((1, 2), 3, 7))]
             nrand = 150
         else:
             plan = [(m, s, n, d) for m in (0, 1, 2) for s, n, d in
-                    (((), 2, 8), ((1,), 2, 10), ((1, 2), 2, 10), ((), 3, 7), ((1,), 3, 8), ((1, 2), 3, 8),
-                     ((1, 2, 0), 3, 7), ((1,), 1, 8))]
+                    (((), 2, 10), ((1,), 2, 12), ((1, 2), 2, 12), ((), 3, 8), ((1,), 3, 10), ((1, 2), 3, 10),
+                     ((1, 2, 0), 3, 9), ((1,), 1, 8))]
             nrand = 3000
         for (m, s, n, d) in plan:
             runs += tee_exhaustive(m, s, n, d)
@@ -1039,6 +1039,14 @@ def check(tier: str) -> int:
         "tee LTS: consumers run in separate tasks, no cancellation of consumers; lock modelled as owner + FIFO queue "
         "(its own guarantees are C09)",
     ]
+    import time as _time
+    phases: dict = {}
+    _t = [_time.time()]
+
+    def mark(name):
+        phases[name] = round(_time.time() - _t[0], 1)
+        _t[0] = _time.time()
+
     proofs_ok = core.proof_stage(rep, "props/C19.v")
     ok8, log8 = core.coq_make(["props/C08_itertools.vo"])
     gate8 = core.coq_gate(["props/C08_itertools.v"])
@@ -1047,7 +1055,9 @@ def check(tier: str) -> int:
     if not ok8 or gate8:
         proofs_ok = False
         rep.coverage.setdefault("proof_failure", {"where": "props/C08_itertools.v", "log_tail": log8[-1500:]})
+    mark("coq_build_and_gate (includes waiting for the shared build lock)")
     exe = core.build_driver("itertools", "Itertools")
+    mark("extraction_and_driver_build")
 
     rng = random.Random(core.seed())
     corpus, corpus_tees = corpus_cases()
@@ -1060,6 +1070,7 @@ def check(tier: str) -> int:
     run_cases(cases, real=False)
     run_cases(rnd_real, real=True)          # the wrappers call through to the real checkpoint functions
     cases += rnd_real
+    mark("run_anyio_and_stdlib")
 
     # ---- X1 / X2 through the extracted model ----
     x1_bad, x2_bad = [], []
@@ -1081,6 +1092,7 @@ def check(tier: str) -> int:
         for h in monitor(c):
             hits.append((c, h))
 
+    mark("model_spec_drivers_and_monitors")
     # ---- tee ----
     tee_runs, tee_nex, tee_plan = run_tee(tier, rng)
     if corpus_tees:
@@ -1114,7 +1126,9 @@ def check(tier: str) -> int:
     tidx = tidx[:sample_n // 3]
     s_in += [tee_runs[i].case() for i in tidx]
     s_ex += [tee_runs[i].outs for i in tidx]
+    mark("tee_interleavings")
     vm_ok, vm_log = core.coq_eval_cases("c19", "Itertools", s_in, s_ex)
+    mark("vm_compute_sample")
 
     # ---- decide ----
     def smallest_per_function(pairs, key=lambda p: len(p[0].enc)):
@@ -1205,6 +1219,7 @@ def check(tier: str) -> int:
         "vm_compute_ok": vm_ok,
         "model_rejected_ops": tee_rejected,
         "monitor_hits": len(hits) + len(tee_hits),
+        "phase_seconds": phases,
         "samples": [cases[i].describe() | {"impl_trace": cases[i].impl[:40]} for i in idx[:2]]
                    + [tee_runs[i].describe() for i in tidx[:1]],
     })
